@@ -75,6 +75,45 @@ def _comp_filter_eval(v, assume):
     return v
 
 
+def lookup_chains(v, depth=0):
+    """Table-driven dispatch read as the if/elif chain it abbreviates (values only, nothing is run):
+        {k1: v1, k2: v2}[key]            ->  phi(key == k1, v1, phi(key == k2, v2, raise KeyError))
+        {k1: v1, ..}.get(key[, default]) ->  ... else default (None)
+        <phi of lambdas>(args)           ->  phi of the bodies with the parameters bound
+    for dict displays whose keys are constants / enum members.  Applied to the value a rate builder returns, so that each row of
+    the table becomes a variant with its own dispatch condition."""
+    if not isinstance(v, tuple) or not v or depth > 40:
+        return v
+    v = tuple(lookup_chains(x, depth + 1) if isinstance(x, tuple) else x for x in v)
+
+    def table(d):
+        return d[0] == "dict" and 0 < len(d[1]) <= 40 and all(k_[0] == "const" or (k_[0] == "attr" and k_[2].isupper()) for k_, _ in d[1])
+
+    def chain(d, key, default):
+        out = default
+        for k_, val in reversed(d[1]):
+            out = ("phi", ("cmp", ("Eq",), (key, k_)), val, out)
+        return out
+    if v[0] == "sub" and table(v[1]) and v[2][0] != "slice":
+        return chain(v[1], v[2], ("raise", ("global", "KeyError")))
+    if v[0] == "meth" and v[2] == "get" and table(v[1]) and len(v[3]) in (1, 2) and not v[4]:
+        return chain(v[1], v[3][0], v[3][1] if len(v[3]) == 2 else ("const", None))
+    if v[0] == "call" and v[1][0] == "phi" and not v[3] and not any(a[0] == "star" for a in v[2]):
+        def apply(f):
+            if f[0] == "phi":
+                a, b = apply(f[2]), apply(f[3])
+                return None if a is None or b is None else ("phi", f[1], a, b)
+            if f[0] == "raise" or f == ("const", None):
+                return f if f[0] == "raise" else ("raise", ("global", "TypeError"))
+            if f[0] == "lambda" and len(f[1]) == len(v[2]):
+                return simp(subst(f[2], dict(zip(f[1], v[2]))))
+            return None
+        r = apply(v[1])
+        if r is not None:
+            return r
+    return v
+
+
 def surface_helper(pkg) -> str:
     """Name of the private grain method that builds the shared surface-reaction rate (called as self.<name>(reac) from
     rate_surface_twobody / rate_reactive_desorption) -- found by role so that renaming it is not an analysis failure."""
@@ -329,6 +368,8 @@ class RateModel:
                 continue
             base = tuple((K(c), p) for c, p in f.guards)
             v = K(f.value)
+            if any(isinstance(x, tuple) and x and x[0] == "dict" for x in walk(v)):
+                v = simp(lookup_chains(v))
             beaut = False
             if v[0] == "meth" and v[1] == SELF and v[2] == "_beautify" and len(v[3]) == 1:
                 beaut = True
